@@ -199,6 +199,9 @@ def c07 (c : Ctx) : String :=
 def run (which : String) (hist : Bytes) (real : List String) : String :=
   let c := mkCtx hist (String.intercalate " " real)
   if c.steps.length != c.lines.length then "fail:unparsable-real-result"
+  -- the harness re-reads every error value it was handed: a call returns what it returns, also later
+  else if c.steps.any (fun s => (s.res.splitOn "EARLIER-ERROR-VALUE-CHANGED").length > 1) then
+    "fail:an-error-value-returned-by-an-earlier-call-changed"
   else match which with
     | "C05" => c05 c
     | "C06" => c06 c
